@@ -405,6 +405,11 @@ def _writeExtFileImageData(strikeIndex, glyphName, bitmapObject, writer, ttFont)
         folder = "."
     folder = os.path.join(folder, "bitmaps")
     filename = glyphName + bitmapObject.fileExtension
+    if os.path.basename(filename) != filename:
+        # a glyph name is data: never let it pick a directory
+        from fontTools.misc.filenames import userNameToFileName
+
+        filename = userNameToFileName(glyphName, suffix=bitmapObject.fileExtension)
     if not os.path.isdir(folder):
         os.makedirs(folder)
     folder = os.path.join(folder, "strike%d" % strikeIndex)
